@@ -158,12 +158,19 @@ Definition openIndexFile_names (c : fscfg) (dirPath : bytes) (sfx : option bytes
   flat_map (fun name => openFSFile_names c (indexFilePath dirPath name) sfx) (indexNames c)
   ++ [(InRoot, match dirPath with [] => dotS | _ => dirPath end)].
 
+(* len(bytes.Trim(path, "/")) > 0 : some byte of path is not '/' *)
+Definition trimmedNonEmpty (path : bytes) : bool := existsb (fun ch => negb (ch =? SLASH)) path.
+
 (* every name handleRequest may pass to the filesystem for this request (which of them it does pass
-   depends on what exists on disk) *)
+   depends on what exists on disk).
+     mustCompressFile := mustCompress && len(bytes.Trim(path, "/")) > 0
+     ff, err = h.openFSFile(filePath, mustCompressFile, fileEncoding)
+     ... errDirIndexRequired && hasTrailingSlash: h.openIndexFile(ctx, filePath, mustCompress, fileEncoding) *)
 Definition candidate_names (c : fscfg) (reqPath host : bytes) (sfx : option bytes) : list (tree * bytes) :=
   match handle c reqPath host with
-  | Serve _ filePath hasTrailingSlash =>
-      openFSFile_names c filePath sfx ++
+  | Serve path filePath hasTrailingSlash =>
+      let sfxFile := if trimmedNonEmpty path then sfx else None in
+      openFSFile_names c filePath sfxFile ++
       (if hasTrailingSlash then openIndexFile_names c filePath sfx else [])
   | _ => []
   end.
